@@ -439,6 +439,37 @@ func jobC11(c *rt.Ctx) {
 		}
 	}
 	c.Require("sparse-output-2")
+	// in-place calls of the array functions: the output array is also the point (the natural way to
+	// write the RFC 7748 iteration) or the scalar
+	c.Require("array-aliasing")
+	for ai := 0; ai < 24; ai++ {
+		if !c.Take() {
+			continue
+		}
+		c.Class("array-aliasing")
+		c.Distinct(fmt.Sprintf("arr-alias %d", ai), true)
+		h := sha512.Sum512([]byte{0xC5, byte(ai)})
+		var k, u [32]byte
+		copy(k[:], h[:32])
+		copy(u[:], h[32:])
+		if ai%3 == 0 {
+			u = [32]byte{9}
+		}
+		want := ref.X25519(k[:], u[:])
+		wantBase := ref.X25519(k[:], nine)
+		k0 := k
+		a, b := u, k
+		ScalarMult(&a, &k, &a) // dst == base
+		kk := k
+		ScalarMult(&b, &b, &u) // dst == in
+		var d [32]byte = k
+		ScalarBaseMult(&d, &d) // dst == in
+		c.Step(3)
+		if !bytes.Equal(a[:], want) || !bytes.Equal(b[:], want) || !bytes.Equal(d[:], wantBase) || kk != k0 {
+			c.Violation("C11 array-aliasing", fmt.Sprintf("in-place ScalarMult / ScalarBaseMult (scalar %x, point %x): dst==base %x, dst==in %x (RFC 7748: %x); ScalarBaseMult dst==in %x (RFC 7748: %x)", k0, u, a, b, want, d, wantBase),
+				map[string]interface{}{"scalar": ref.Hex(k0[:]), "point": ref.Hex(u[:])})
+		}
+	}
 	// results are fresh memory: they alias neither an argument nor a later result
 	c.Require("result-fresh")
 	for which := 0; which < 2; which++ {
